@@ -326,6 +326,9 @@ def classify(model, fam, align, about_z, explained_by_chain_sign):
       V  multi_topology_dpd_spin0_initial_state_not_invariant
     <a> = unaligned_spinless | axisangle."""
     if fam in SINGLE_SIGNATURE:
+        if align != "none":  # one topology with an alignment selected: must hold as well
+            kind = "dpd" if align.startswith("dpd") else align
+            return SINGLE_SIGNATURE[fam].replace("single_topology_", f"single_topology_{kind}_aligned_")
         return SINGLE_SIGNATURE[fam]
     if not fam.startswith("multi_") or fam.startswith("multi_unaligned_spinful"):
         return None
@@ -631,6 +634,20 @@ def plan(tier):
     if "jpsi_ppbarpi0_hel" in reactions.names():
         cases.append(("jpsi_ppbarpi0_hel", None, "axisangle"))
         cases += [("jpsi_ppbarpi0_hel", 0, "none"), ("jpsi_ppbarpi0_hel", 1, "none")] if tier != "thorough" else []
+    # ONE topology with an alignment selected: must be invariant (for DPD in particular when the spectator of
+    # the chain is the reference subsystem and carries spin: all three reference subsystems)
+    for n, tops in (("lc_pkpi_hel", [0, 1, 2]), ("jpsi_ppbarpi0_hel", [0, 1]), ("jpsi_3pi_hel", [0, 1, 2])):
+        if n not in reactions.names():
+            continue
+        for t in tops:
+            aligns = ["dpd1", "dpd2", "dpd3"]
+            if n == "jpsi_3pi_hel" and tier != "thorough":
+                aligns = ["dpd1"]
+            if n == "jpsi_ppbarpi0_hel" and tier != "thorough":
+                aligns = ["dpd2", "dpd3"]  # the spectators p / p~ are subsystems 2 and 3 (16 s per model)
+            if n != "jpsi_3pi_hel" and (tier == "thorough" or n == "lc_pkpi_hel"):
+                aligns.append("axisangle")
+            cases += [(n, t, a) for a in aligns]
     # multi-topology, unaligned
     multi = ["jpsi_3pi_hel", "d0_kkk_hel"]
     if tier == "thorough":
